@@ -87,6 +87,11 @@ func runC12(r *core.Run) {
 	}
 	n := 2 + r.Intn(maxLen-1, "history-length")
 	a := NewAuthority(r, cfg, seams.NewPlanNone(r))
+	// the operator may write --timestamp with a numeric zone offset: the same instant
+	if r.Chance(30, "operator-time-zone?") {
+		off := []int{-8, -3, 2, 5, 9}[r.Intn(5, "zone")]
+		a.Zone = time.FixedZone(fmt.Sprintf("UTC%+d", off), off*3600+[]int{0, 1800}[r.Intn(2, "half-hour")])
+	}
 	m := &c12Model{everPrimary: map[string][]byte{}, allNames: map[string]bool{}, stamps: map[int64]bool{}}
 	rootStart := time.Time{}
 	var hist []string
